@@ -187,3 +187,40 @@ func VerifC05_HTTPClient() {
 	verifAssert(err == nil && res != nil, "a later well-formed response is delivered")
 	verifReach("end")
 }
+
+func init() {
+	verifHarnesses["VerifC05_HTTPCall"] = VerifC05_HTTPCall
+}
+
+// C05: a two-way call over the HTTP transport whose peer answers with an arbitrary
+// decoded body (including the empty frame a oneway gets): FStandardClient.Call returns a
+// value or an error, never panics, and the client is still usable.
+func VerifC05_HTTPCall() {
+	tr := NewFHTTPTransportBuilder(&http.Client{}, "http://h/x").Build()
+	pf := NewFProtocolFactory(thrift.NewTBinaryProtocolFactoryDefault())
+	client := NewFStandardClient(NewFServiceProvider(tr, pf))
+	n := verifParam()
+	decoded := make([]byte, n)
+	for i := range decoded {
+		decoded[i] = []byte{0x00, 0x01, 0x7f, 0xff}[verifChoice(4)]
+	}
+	status := []int{200, 413, 500}[verifChoice(3)]
+	verifHTTPResponse = &http.Response{StatusCode: status, Body: io.NopCloser(bytes.NewReader([]byte(base64.StdEncoding.EncodeToString(decoded))))}
+	verifHTTPErr = nil
+	verifNoPanic("FStandardClient.Call over HTTP panics", func() {
+		err := client.Call(NewFContext("c"), "ping", &verifMsg{a: "a", b: "y", c: "z"}, &verifPingResult{})
+		if err != nil {
+			verifReach("rejected")
+		}
+	})
+	// a following well-formed reply is delivered to the caller
+	h := &verifPingHandler{outcome: verifOutcome(verifOutValue, 0)}
+	handler := NewFrugalHandlerFunc(verifPingProcessor(h), pf)
+	fctx := NewFContext("c2")
+	_, reply := verifHTTPCall(handler, prependFrameSize(verifRequestFrame(fctx, verifReqKnown, "q")), "")
+	verifHTTPResponse = &http.Response{StatusCode: 200, Body: io.NopCloser(bytes.NewReader([]byte(base64.StdEncoding.EncodeToString(reply))))}
+	res := &verifPingResult{}
+	err := client.Call(fctx, "ping", &verifMsg{a: "q", b: "y", c: "z"}, res)
+	verifAssert(err == nil && res.success != nil && *res.success == "re:q", "a later well-formed reply reaches the caller")
+	verifReach("end")
+}
